@@ -15,6 +15,8 @@ import (
 	"io"
 	"math/rand"
 	"net"
+	"sort"
+	"strings"
 	"sync"
 	"sync/atomic"
 	"time"
@@ -423,6 +425,60 @@ func (w *fzWorld) genCases(c *engine.Ctx, rng *rand.Rand) []fzCase {
 		r.NonceSignature = ed25519.Sign(w.reg.K.Priv, r.Nonce)
 	})
 	authHostile("signature 3 bytes", func(r *types.GenerateServerCertificatesRequest) { r.NonceSignature = []byte{1, 2, 3} })
+	// well-signed requests accompanied by certificate-preference entries the
+	// server cannot or need not honor (unknown root, empty, long, repeated,
+	// the real roots) before and after the request's entries
+	var rootIDs []string
+	if roots, err := types.LoadRootCertificates(w.s.Ctx, w.s.Store, w.s.Opts()...); err == nil {
+		for _, rc := range []*types.RootCertificate{roots.Current, roots.Next} {
+			if rc != nil {
+				rootIDs = append(rootIDs, rc.Id)
+			}
+		}
+	}
+	prefLists := map[string][]string{
+		"unknown":        {cp + "no-such-root-key-id"},
+		"empty":          {cp},
+		"long":           {cp + strings.Repeat("k", 255-len(cp))},
+		"two unknown":    {cp + "one", cp + "two"},
+		"key-id shaped":  {cp + att.KeyID},
+		"node's own key": {cp + w.reg.K.KeyID},
+	}
+	for i, id := range rootIDs {
+		prefLists[fmt.Sprintf("root %d", i)] = []string{cp + id}
+		prefLists[fmt.Sprintf("unknown then root %d", i)] = []string{cp + "nope", cp + id}
+		prefLists[fmt.Sprintf("root %d then unknown", i)] = []string{cp + id, cp + "nope"}
+	}
+	prefNames := make([]string, 0, len(prefLists))
+	for k := range prefLists {
+		prefNames = append(prefNames, k)
+	}
+	sort.Strings(prefNames)
+	for _, pn := range prefNames {
+		var prefs [][]byte
+		for _, e := range prefLists[pn] {
+			prefs = append(prefs, []byte(e))
+		}
+		for _, before := range []bool{false, true} {
+			n := world.RandBytes(32)
+			areq := &types.GenerateServerCertificatesRequest{CertificatePublicKeyPkix: w.reg.K.Pkix, Nonce: n, NonceSignature: ed25519.Sign(w.reg.K.Priv, n)}
+			ab, _ := proto.Marshal(areq)
+			freq := world.Sign(world.BaseInfo(att, enc.Pub, world.RandBytes(32)), att.Priv)
+			fb, _ := proto.Marshal(freq)
+			for _, it := range []struct {
+				what string
+				l    [][]byte
+			}{{"auth", protosOf(ap, b64(ab))}, {"fetch", protosOf(fp, b64(fb))}} {
+				var l [][]byte
+				if before {
+					l = append(append(l, prefs...), it.l...)
+				} else {
+					l = append(append(l, it.l...), prefs...)
+				}
+				add("signed-with-certpref", fmt.Sprintf("%s, preference %s, before=%v", it.what, pn, before), l)
+			}
+		}
+	}
 
 	// (c) single-byte mutations of honest requests
 	nm := c.Pick(300, 0)
@@ -577,6 +633,7 @@ func runFuzzListen(c *engine.Ctx) engine.Result {
 	r.Require("canary_connects", 8)
 	r.Require("temporary_errors", 50)
 	r.Require("class:signed-hostile", 10)
+	r.Require("class:signed-with-certpref", 10)
 	r.Require("class:raw", 10)
 	r.Require("class:dropped", 10)
 	r.Require("closed_listener_reports_non_temporary", 4)
